@@ -1,3 +1,20 @@
+// fakeplugin is a scriptable notation plugin process (C16, C17, C20).
+//
+// It reads `behaviour.json` next to its own executable: a map from the protocol command
+// (argv[1], or "*") to a behaviour. All fields are optional; unknown fields are ignored.
+//
+//	exit          exit status (after all output has been written)
+//	kill          the process kills itself with SIGKILL instead of exiting
+//	stdout/stderr text written to the stream
+//	padStdout/padStderr   when > 0 and the text ends in '}', `,"<key>":"aaa…"` with that many
+//	              'a's is inserted before the closing brace (streamed, never held in memory)
+//	padStdoutKey/padStderrKey   the key used for the padding (default "pad")
+//	sleepMs       sleep before writing the output
+//	childSleepMs  spawn a descendant that inherits stdout/stderr and sleeps that long; the
+//	              descendant ends early when a file `stop` appears next to the executable or
+//	              when the executable itself disappears (sandbox removed)
+//	childPidFile  file the descendant's pid is written to (atomically) before anything else
+//	marker        file to which the command name is appended (execution witness)
 package main
 
 import (
@@ -7,35 +24,49 @@ import (
 	"os"
 	"os/exec"
 	"path/filepath"
+	"strconv"
+	"syscall"
 	"time"
 )
 
 type behaviour struct {
-	Exit       int    `json:"exit"`
-	Stdout     string `json:"stdout"`
-	Stderr     string `json:"stderr"`
-	PadStdout  int    `json:"padStdout"` // append ,"pad":"aaa.." inside the JSON object
-	PadStderr  int    `json:"padStderr"`
-	SleepMs    int    `json:"sleepMs"`
-	ChildSleep int    `json:"childSleepMs"` // spawn a descendant holding the pipes
-	Marker     string `json:"marker"`
+	Exit         int    `json:"exit"`
+	Kill         bool   `json:"kill"`
+	Stdout       string `json:"stdout"`
+	Stderr       string `json:"stderr"`
+	PadStdout    int64  `json:"padStdout"` // append ,"pad":"aaa.." inside the JSON object
+	PadStderr    int64  `json:"padStderr"`
+	PadStdoutKey string `json:"padStdoutKey"`
+	PadStderrKey string `json:"padStderrKey"`
+	SleepMs      int    `json:"sleepMs"`
+	ChildSleep   int    `json:"childSleepMs"` // spawn a descendant holding the pipes
+	ChildPidFile string `json:"childPidFile"`
+	Marker       string `json:"marker"`
 }
 
-func pad(w io.Writer, s string, n int) {
+func pad(w io.Writer, s string, n int64, key string) {
+	if key == "" {
+		key = "pad"
+	}
 	bw := bufio.NewWriterSize(w, 1<<20)
 	if n > 0 && len(s) > 0 && s[len(s)-1] == '}' {
 		bw.WriteString(s[:len(s)-1])
-		bw.WriteString(`,"pad":"`)
+		if len(s) > 2 {
+			bw.WriteString(",")
+		}
+		bw.WriteString(`"` + key + `":"`)
 		chunk := make([]byte, 1<<16)
 		for i := range chunk {
 			chunk[i] = 'a'
 		}
 		for n > 0 {
 			k := n
-			if k > len(chunk) {
-				k = len(chunk)
+			if k > int64(len(chunk)) {
+				k = int64(len(chunk))
 			}
-			bw.Write(chunk[:k])
+			if _, err := bw.Write(chunk[:k]); err != nil {
+				return // reader gone (EPIPE): nothing more to do
+			}
 			n -= k
 		}
 		bw.WriteString(`"}`)
@@ -43,6 +74,21 @@ func pad(w io.Writer, s string, n int) {
 		bw.WriteString(s)
 	}
 	bw.Flush()
+}
+
+// sleeper is the descendant: it holds the inherited stdout/stderr for d, unless told to stop.
+func sleeper(d time.Duration, exe string) {
+	stop := filepath.Join(filepath.Dir(exe), "stop")
+	end := time.Now().Add(d)
+	for time.Now().Before(end) {
+		if _, err := os.Stat(stop); err == nil {
+			return
+		}
+		if _, err := os.Stat(exe); err != nil {
+			return
+		}
+		time.Sleep(25 * time.Millisecond)
+	}
 }
 
 func main() {
@@ -53,6 +99,10 @@ func main() {
 	}
 	if cmd == "__sleep" {
 		d, _ := time.ParseDuration(os.Args[2])
+		if len(os.Args) > 3 {
+			sleeper(d, os.Args[3])
+			return
+		}
 		time.Sleep(d)
 		return
 	}
@@ -75,14 +125,23 @@ func main() {
 		f.Close()
 	}
 	if b.ChildSleep > 0 {
-		c := exec.Command(exe, "__sleep", (time.Duration(b.ChildSleep) * time.Millisecond).String())
+		c := exec.Command(exe, "__sleep", (time.Duration(b.ChildSleep) * time.Millisecond).String(), exe)
 		c.Stdout, c.Stderr = os.Stdout, os.Stderr
-		c.Start()
+		if err := c.Start(); err == nil && b.ChildPidFile != "" {
+			tmp := b.ChildPidFile + ".tmp"
+			if os.WriteFile(tmp, []byte(strconv.Itoa(c.Process.Pid)), 0644) == nil {
+				os.Rename(tmp, b.ChildPidFile)
+			}
+		}
 	}
 	if b.SleepMs > 0 {
 		time.Sleep(time.Duration(b.SleepMs) * time.Millisecond)
 	}
-	pad(os.Stdout, b.Stdout, b.PadStdout)
-	pad(os.Stderr, b.Stderr, b.PadStderr)
+	pad(os.Stdout, b.Stdout, b.PadStdout, b.PadStdoutKey)
+	pad(os.Stderr, b.Stderr, b.PadStderr, b.PadStderrKey)
+	if b.Kill {
+		syscall.Kill(os.Getpid(), syscall.SIGKILL)
+		time.Sleep(10 * time.Second)
+	}
 	os.Exit(b.Exit)
 }
